@@ -53,8 +53,31 @@ def build_all(variant):
     exec(compile(LAMBDA_SRC, FILENAMES[variant % len(FILENAMES)], 'exec'), ns)
     for k in ('t_inc', 't_attr', 't_call', 'c_inc', 'c_attr'):
         out.append(('lambda tasklet %s (jugfile spelled %s in some process)' % (k, FILENAMES[1]), ns[k]))
+    # callables of other kinds as task functions: a partial, a callable instance, built-in functions, methods. Whatever jug does with them - accept or refuse -
+    # it does the same in every process
+    import functools, operator
+    for label, mk in (('functools.partial of a module-level function', lambda: Task(functools.partial(hm.f, 1), 2)),
+                      ('functools.partial with keyword', lambda: Task(functools.partial(hm.g, key=3), [1])),
+                      ('callable instance', lambda: Task(hm.CALLABLE_INSTANCE, 5)),
+                      ('built-in function', lambda: Task(len, [1, 2, 3])),
+                      ('operator function', lambda: Task(operator.add, 1, 2)),
+                      ('unbound method of a built-in type', lambda: Task(str.upper, 'abc')),
+                      ('bound method', lambda: Task('abc'.upper))):
+        try:
+            out.append(('task whose function is a %s' % label, mk()))
+        except Exception as e:
+            out.append(('task whose function is a %s' % label, _Refused(type(e).__name__)))
     del jug.task.alltasks[:]
     return out
+
+
+class _Refused:
+    """jug refused to build the task: the 'identifier' is the kind of refusal"""
+    def __init__(self, what):
+        self.what = what
+
+    def __jug_hash__(self):
+        return ('refused:' + self.what).encode()
 
 
 def ids(variant):
@@ -64,7 +87,7 @@ def ids(variant):
         try:
             res.append((label, hash_one(v).decode()))
         except Exception as e:
-            res.append((label, 'EXC %s: %s' % (type(e).__name__, e)))
+            res.append((label, 'EXC %s' % type(e).__name__))
     return res
 
 
